@@ -85,6 +85,8 @@ class SymContMixin:
                 yield self._upd(st, r, arr=z3.Store(ex["arr"], x, z3.BoolVal(True))), NONE
             elif name == "discard":
                 yield self._upd(st, r, arr=z3.Store(ex["arr"], x, z3.BoolVal(False))), NONE
+            elif name == "copy":
+                yield st.alloc(Obj(None, "set", None, [], {"symbolic": True, "arr": ex["arr"]}))
             elif name == "remove":
                 has = z3.Select(ex["arr"], x)
                 if self.feasible(st.pc, has):
